@@ -804,6 +804,56 @@ func exGraphs(r *rng, n int, tier string, ids bool) []*exGraph {
 	for _, g := range exBoundedSample(r.fork(0xb0), n/2, tier) {
 		add(g)
 	}
+	for _, g := range exImportedElementGraphs() {
+		add(g)
+	}
+	return out
+}
+
+// exImportedElementGraphs: a path item imported from another document whose operations use that document's own shared
+// parameters and responses through fragment-only references, the schemas of those referring on - locally, by file name, to
+// a third document - while the importing root holds different definitions, parameters and responses under the same names.
+// Variants: where the other documents lie (next to the root, in a sub-folder), and a recursive definition behind them.
+func exImportedElementGraphs() []*exGraph {
+	type m = map[string]interface{}
+	var out []*exGraph
+	for _, dir := range []string{"", "sub/"} {
+		for _, cyclic := range []bool{false, true} {
+			tdef := m{"type": "object", "description": "T of items", "properties": m{"n": m{"type": "string"}}}
+			if cyclic {
+				tdef["properties"].(m)["next"] = m{"$ref": "#/definitions/T"}
+			}
+			items := m{"swagger": "2.0", "info": m{"title": "items", "version": "1"},
+				"paths": m{"/items": m{
+					"parameters": []interface{}{m{"$ref": "#/parameters/trace"}},
+					"get": m{"parameters": []interface{}{m{"$ref": "#/parameters/limit"}, m{"$ref": "items.json#/parameters/trace"}},
+						"responses": m{"200": m{"$ref": "#/responses/ok"}, "default": m{"$ref": "#/responses/chained"}}}}},
+				"parameters": m{
+					"limit": m{"name": "limit", "in": "body", "schema": m{"$ref": "#/definitions/T"}},
+					"trace": m{"name": "trace", "in": "body", "schema": m{"type": "array", "items": m{"$ref": "models.json#/definitions/P"}}}},
+				"responses": m{
+					"ok":      m{"description": "ok of items", "schema": m{"$ref": "models.json#/definitions/P"}},
+					"chained": m{"$ref": "#/responses/ok"}},
+				"definitions": m{"T": tdef}}
+			models := m{"definitions": m{"P": m{"type": "object", "description": "P of models", "properties": m{"t": m{"$ref": "items.json#/definitions/T"}}}}}
+			root := m{"swagger": "2.0", "info": m{"title": "root", "version": "1"},
+				"paths":       m{"/items": m{"$ref": dir + "items.json#/paths/~1items"}, "/own": m{"get": m{"parameters": []interface{}{m{"$ref": "#/parameters/limit"}}, "responses": m{"200": m{"$ref": "#/responses/ok"}}}}},
+				"parameters":  m{"limit": m{"name": "limit", "in": "query", "type": "integer"}, "trace": m{"name": "trace", "in": "header", "type": "string"}},
+				"responses":   m{"ok": m{"description": "ok of root"}},
+				"definitions": m{"T": m{"type": "integer", "description": "T of root"}, "P": m{"type": "boolean", "description": "P of root"}}}
+			out = append(out, exFromGeneric(m{"file:///i/root.json": root, "file:///i/" + dir + "items.json": items, "file:///i/" + dir + "models.json": models}, "file:///i/root.json"))
+		}
+	}
+	// a document served at a location with a query (a revision, a format selector): part of its identity for anything but a
+	// local file; referenced several times and referring to itself by fragment
+	for _, loc := range []string{"https://h.example/types.json?rev=2", "http://h.example:8080/api/types?format=json&rev=2"} {
+		types := m{"definitions": m{"name": m{"type": "string", "description": "name of types"},
+			"other": m{"type": "object", "properties": m{"n": m{"$ref": "#/definitions/name"}, "m": m{"$ref": "#/definitions/name"}}}}}
+		root := m{"swagger": "2.0", "info": m{"title": "root", "version": "1"}, "paths": m{},
+			"definitions": m{"A": m{"$ref": loc + "#/definitions/name"}, "B": m{"$ref": loc + "#/definitions/other"},
+				"C": m{"type": "array", "items": m{"$ref": loc + "#/definitions/other"}}, "name": m{"type": "integer"}}}
+		out = append(out, exFromGeneric(m{"file:///q/root.json": root, loc: types}, "file:///q/root.json"))
+	}
 	return out
 }
 
@@ -921,7 +971,9 @@ func exInjectFault(r *rng, g *exGraph) (*exGraph, string) {
 			tv, _ := s.lookup(t)
 			tm, _ := tv.(map[string]interface{})
 			var absent []string
-			for _, k := range []string{"not", "additionalProperties", "additionalItems", "items"} {
+			// held by the typed document behind a pointer (nil when absent) - or in a map or a slice (nil when absent)
+			for _, k := range []string{"not", "additionalProperties", "additionalItems", "items", "properties", "patternProperties", "definitions",
+				"dependencies", "allOf", "anyOf", "oneOf", "required", "enum", "type"} {
 				if _, has := tm[k]; !has && tm != nil {
 					absent = append(absent, k)
 				}
@@ -929,7 +981,23 @@ func exInjectFault(r *rng, g *exGraph) (*exGraph, string) {
 			if len(absent) == 0 {
 				continue
 			}
-			tokens = append(append([]string{}, tokens...), r.pick(absent))
+			pick := r.pick(absent)
+			td, isDoc := s[t.Doc].(map[string]interface{})
+			if _, isSw := td["swagger"]; isDoc && isSw && r.chance(1, 3) {
+				// the member is there, but holds what its union type cannot: a scalar `items`, an empty list as a dependency (the
+				// typed document keeps an empty union, which encodes as null).  In a definition of its own, so that no other
+				// reference meets it.
+				fault = "empty-union"
+				defs, _ := td["definitions"].(map[string]interface{})
+				if defs == nil {
+					defs = map[string]interface{}{}
+					td["definitions"] = defs
+				}
+				defs["emptyunion"] = map[string]interface{}{"description": "unions", "items": []interface{}{5.0, "s", true}[r.intn(3)], "dependencies": map[string]interface{}{"k": []interface{}{}}}
+				tokens = append([]string{"definitions", "emptyunion"}, [][]string{{"items"}, {"dependencies", "k"}}[r.intn(2)]...)
+			} else {
+				tokens = append(append([]string{}, tokens...), pick)
+			}
 		} else {
 			tokens = exPtrTokens(t.Ptr)
 			if len(tokens) == 0 {
@@ -952,6 +1020,14 @@ func exInjectFault(r *rng, g *exGraph) (*exGraph, string) {
 		f.Docs[u] = b
 	}
 	f.analyse()
+	for _, b := range f.Broken {
+		if b.Fault == "empty-union" {
+			// the root then holds a definition with a scalar `items`: outside the expander model (the typed document encodes the
+			// empty union as null, the known codec finding F4b); judged by the oracles on the implementation
+			f.Tags = append(f.Tags, "empty-union")
+			break
+		}
+	}
 	return f, strings.SplitN(fault, ":", 2)[0]
 }
 
@@ -1036,6 +1112,8 @@ func (l *exLoadLog) list() []string {
 
 var errExNoDoc = errors.New("no such document")
 
+var exLoaderDelay int64 // nanoseconds every loader waits before answering (set by the concurrent oracle only)
+
 func exMakeLoader(docs map[string]json.RawMessage, missing []string, lg *exLoadLog) func(string) (json.RawMessage, error) {
 	gone := map[string]bool{}
 	for _, m := range missing {
@@ -1044,6 +1122,9 @@ func exMakeLoader(docs map[string]json.RawMessage, missing []string, lg *exLoadL
 	return func(u string) (json.RawMessage, error) {
 		if lg != nil {
 			lg.add(u)
+		}
+		if d := atomic.LoadInt64(&exLoaderDelay); d > 0 {
+			time.Sleep(time.Duration(d)) // concurrent workloads: fetching a document takes time, fetches overlap
 		}
 		d, ok := docs[u]
 		if !ok || gone[u] {
@@ -1720,6 +1801,35 @@ func exUnionsGraph() *exGraph {
 		"x-Mixed":  map[string]interface{}{"thing": map[string]interface{}{"type": "integer"}}}}, "file:///u/root.json")
 }
 
+// exNamesGraph: one document whose path items, parameters, responses and definitions carry names that hold the text of an
+// escape ("%41", "a%20b", "~1"), next to the names a second decoding would turn them into: a reference designates a member
+// after exactly one round of percent- and pointer-decoding, whichever way the root is supplied.
+var exOddNames = []string{"only%41", "onlyA", "a%20b", "a b", "{id}", "%7Bid%7D", "100%", "x~1y", "x/y", "v~0", "v~", "é", "q?r", "h#i", "%"}
+
+func exNamesGraph() (*exGraph, []exResolveCase) {
+	paths, params, resps, defs := map[string]interface{}{}, map[string]interface{}{}, map[string]interface{}{}, map[string]interface{}{}
+	var cases []exResolveCase
+	for _, n := range exOddNames {
+		paths["/"+n] = map[string]interface{}{"get": map[string]interface{}{"responses": map[string]interface{}{"200": map[string]interface{}{"description": "path " + n}}}}
+		params[n] = map[string]interface{}{"name": "param " + n, "in": "query", "type": "string"}
+		resps[n] = map[string]interface{}{"description": "response " + n}
+		defs[n] = map[string]interface{}{"description": "definition " + n}
+		cases = append(cases, exResolveCase{Kind: "PathItem", Ref: "#" + exFragment(nil, []string{"paths", "/" + n}), Tag: "odd-name"},
+			exResolveCase{Kind: "Parameter", Ref: "#" + exFragment(nil, []string{"parameters", n}), Tag: "odd-name"},
+			exResolveCase{Kind: "Response", Ref: "#" + exFragment(nil, []string{"responses", n}), Tag: "odd-name"},
+			exResolveCase{Kind: "Schema", Ref: "#" + exFragment(nil, []string{"definitions", n}), Tag: "odd-name"},
+			exResolveCase{Kind: "Schema", Ref: "#" + exFragment(nil, []string{"paths", "/" + n, "get", "responses", "200"}), Tag: "odd-name"})
+	}
+	// spelled with one escape too many, these designate nothing (or the member whose name really holds the escape)
+	for _, r := range []string{"#/paths/~1%257Bid%257D", "#/paths/~1only%2541", "#/parameters/%257Bid%257D", "#/definitions/a%2520b", "#/definitions/x~01y", "#/responses/100%2525"} {
+		kind := map[string]string{"paths": "PathItem", "parameters": "Parameter", "responses": "Response", "definitions": "Schema"}[strings.Split(r, "/")[1]]
+		cases = append(cases, exResolveCase{Kind: kind, Ref: r, Tag: "odd-name-over-escaped"})
+	}
+	g := exFromGeneric(map[string]interface{}{"file:///n/root.json": map[string]interface{}{"swagger": "2.0", "info": map[string]interface{}{"title": "names", "version": "1"},
+		"paths": paths, "parameters": params, "responses": resps, "definitions": defs}}, "file:///n/root.json")
+	return g, cases
+}
+
 var exUnionRefs = []string{"#/definitions/tuple/items", "#/definitions/tuple/items/0", "#/definitions/tuple/additionalItems", "#/definitions/list/items",
 	"#/definitions/list/additionalItems", "#/definitions/closed/additionalProperties", "#/definitions/open/additionalProperties",
 	"#/definitions/typed/additionalProperties", "#/definitions/typed/not", "#/definitions/plain/not", "#/definitions/plain/items", "#/definitions/plain/additionalProperties",
@@ -1768,6 +1878,18 @@ func genExpandCases(r *rng, n int, tier string, cw *caseWriter) {
 					emit(orderedMap{{"op", "resolve_ref"}, {"nt", true}, {"kind", "Schema"}, {"docs", g.Docs}, {"root", g.Root}, {"ref", ref}, {"root_mode", mode},
 						{"missing", []string{}}, {"expect", "union-position"}, {"go", view2}})
 				}
+			}
+		}
+	}
+	{
+		g, cases := exNamesGraph()
+		for _, rc := range cases {
+			for _, mode := range []string{"typed", "generic", "none"} {
+				c := g.call("resolve", exOpts{})
+				c.Kind, c.Ref, c.RootMode = rc.Kind, rc.Ref, mode
+				view, _ := exGoView(g, c, exRun(c), false)
+				emit(orderedMap{{"op", "resolve"}, {"nt", true}, {"kind", rc.Kind}, {"docs", g.Docs}, {"root", g.Root}, {"ref", rc.Ref}, {"root_mode", mode},
+					{"missing", []string{}}, {"expect", rc.Tag}, {"go", view}})
 			}
 		}
 	}
